@@ -42,7 +42,7 @@ func corpus() []*Case {
 	return []*Case{
 		mk("single: bind, run, complete -> handler deletes the reservation", []int{0},
 			st(bind("c1", "n1", "g1"), noF(), 0), st(phase("c1", "Running"), noF()), st(phase("c1", "Succeeded"), noF()), st(restart(), noF())),
-		mk("multi-fraction consumer completes: no handler sync", []int{1},
+		mk("multi-fraction consumer completes: the handler syncs its groups (regression of 5990b65)", []int{1},
 			st(bind("c1", "n1", "g1", "g2"), noF(), 0, 1), st(phase("c1", "Running"), noF()), st(phase("c1", "Succeeded"), noF())),
 		mk("multi-fraction consumer completes, then the next bind on the node", []int{1, 0},
 			st(bind("c1", "n1", "g1", "g2"), noF(), 0, 1), st(phase("c1", "Running"), noF()), st(phase("c1", "Failed"), noF()),
@@ -52,7 +52,7 @@ func corpus() []*Case {
 			st(restart(), noF())),
 		mk("multi-fraction consumer deleted: BindRequest collected, its handler syncs", []int{1},
 			st(bind("c1", "n1", "g1", "g2"), noF(), 0, 1), st(phase("c1", "Running"), noF()), st(del("c1"), noF())),
-		mk("multi-fraction consumer deleted after its BindRequest is gone", []int{1},
+		mk("multi-fraction consumer deleted after its BindRequest is gone (regression of 5990b65)", []int{1},
 			st(bind("c1", "n1", "g1", "g2"), noF(), 0, 1), st(phase("c1", "Running"), noF()), st(brdel("c1"), noF()), st(del("c1"), noF()),
 			st(nodesync("n2"), noF()), st(nodesync("n1"), noF())),
 		mk("reservation pod of a running multi-fraction consumer vanishes", []int{1},
